@@ -33,6 +33,18 @@ CLAIMED.update({
             "container; quick tier samples it. No-crash/no-hang is decided by the scheduler (deadlock, step budget) and exit status."),
 })
 
+CLAIMED.update({
+    "C02": ("exploration", "3 C02", TECH + "exactly-once / byte-exact reassembly oracle (model + separator-marker split) over simulated end-to-end runs with block-boundary-targeted content, under seeded schedules",
+            "History oracle over the worker->channel->printer path with the reader concurrently dropping data; block size, "
+            "containers and schedules sampled. The schedule is a nuisance dimension here (C06 says it must not matter)."),
+    "C03": ("exploration", "3 C03", TECH + "reference filter model A<=t<=B on instants known by construction; bounds placed on/around message instants; binary-search and linear-search readers; under seeded schedules",
+            "Model oracle over simulated end-to-end runs; sampling of windows, contents, block sizes."),
+    "C05": ("exploration", "3 C05", TECH + "metamorphic: plain form vs gz/bz2/xz/lz4/tar forms with seed-chosen codec parameters (decoder hand-back chunking vs block size) must print identical bytes",
+            "Stream-chunking property decided by metamorphic comparison between simulated runs; text, accounting, evtx and journal inputs."),
+    "C12": ("exploration", "3 C12", TECH + "knob invariance: stdout at ~8..27 block sizes (fixed set + content-derived sizes) must equal stdout at the default block size",
+            "Tuning-knob randomisation of the read block size over boundary-targeted content; known finding F-C12a is steered around and shown by a pinned replay."),
+})
+
 NOT_APPLICABLE = {
     "C04": "pure function from (line bytes, pattern table, fallback zone) to an instant: no schedule, clock, fault or interleaving to simulate (DESIGN section 5)",
     "C16": "pure terminating recursion on a file-name string: no I/O, time or concurrency to simulate (DESIGN section 5)",
